@@ -167,6 +167,72 @@ def worker(arg):
         r["bad"] = {"kind": "rules", "case": tlaval.to_json(c), "files": files, "diff": diff, "failing": sorted(out["failing"])}
     return r
 
+@core.safe
+def dep_port_worker(arg):
+    """A definition with a fixed port-ID outside the regulated range, reached first as a dependency of a target that sorts
+    before it (or only afterwards), through a field / an array / a constant reference: rejected unless explicitly allowed."""
+    import pydsdl
+    referrer, how, port, api = arg
+    ref = {"field": "vnd.B.1.0 b\n", "array": "vnd.B.1.0[<=2] b\n", "const": "uint8 X = vnd.B.1.0.K\n", "none": ""}[how]
+    fs = {"vnd/%s.1.0.dsdl" % referrer: ref + "@sealed\n", "vnd/%d.B.1.0.dsdl" % port: "uint8 K = 1\n@sealed\n"}
+    diff = []
+    regulated = 6144 <= port <= 7167          # the vendor-specific regulated subject-IDs of a non-standard root namespace
+    with dsdlio.Tree(fs, "c05p") as tr:
+        for allow in (False, True):
+            try:
+                if api == "namespace":
+                    pydsdl.read_namespace(tr.path("vnd"), allow_unregulated_fixed_port_id=allow)
+                else:
+                    pydsdl.read_files([tr.path(k) for k in sorted(fs)], [tr.path("vnd")], allow_unregulated_fixed_port_id=allow)
+                ok = True
+            except pydsdl.InvalidDefinitionError:
+                ok = False
+            if ok != (allow or regulated):
+                diff.append(("allow_unregulated_fixed_port_id=%s" % allow, "accepted" if ok else "rejected"))
+    r = {"nt": True, "key": core.jhash(list(arg))}
+    if diff:
+        r["bad"] = {"kind": "dep-port", "case": {"referrer": referrer, "how": how, "port": port, "api": api}, "diff": diff}
+    return r
+
+@core.safe
+def ctor_rules_worker(arg):
+    """The rules that the model classes enforce themselves hold however the attributes are handed to the public constructors."""
+    import pydsdl
+    from pathlib import Path
+    rule, form = arg
+    u8 = pydsdl.UnsignedIntegerType(8, pydsdl.PrimitiveType.CastMode.SATURATED)
+    F, C, P = pydsdl.Field, pydsdl.Constant, pydsdl.PaddingField
+    one = pydsdl._expression.Rational(1)
+    cases = {   # rule -> (class, attributes, must be accepted)
+        "ok-struct": (pydsdl.StructureType, [F(u8, "a"), P(pydsdl.VoidType(8)), C(u8, "K", one), F(u8, "b")], True),
+        "ok-union": (pydsdl.UnionType, [F(u8, "a"), C(u8, "K", one), F(u8, "b")], True),
+        "dup-field": (pydsdl.StructureType, [F(u8, "a"), F(u8, "b"), F(u8, "a")], False),
+        "dup-field-const": (pydsdl.StructureType, [F(u8, "a"), C(u8, "a", one)], False),
+        "dup-union": (pydsdl.UnionType, [F(u8, "a"), F(u8, "b"), F(u8, "b")], False),
+        "union-one-variant": (pydsdl.UnionType, [F(u8, "a"), C(u8, "K", one)], False),
+        "union-padding": (pydsdl.UnionType, [F(u8, "a"), P(pydsdl.VoidType(8)), F(u8, "b")], False),
+    }
+    cls, attrs, good = cases[rule]
+    seq = attrs if form == "list" else tuple(attrs) if form == "tuple" else (x for x in attrs) if form == "generator" else \
+        iter(attrs) if form == "iter" else map(lambda x: x, attrs)
+    diff = []
+    try:
+        t = cls(name="ns.T", version=pydsdl.Version(1, 0), attributes=seq, deprecated=False, fixed_port_id=None,
+                source_file_path=Path("/nonexistent/ns/T.1.0.dsdl"), has_parent_service=False)
+        if not good:
+            diff.append(("accepted", rule, form))
+        elif [a.name for a in t.attributes] != [a.name for a in attrs] or len(t.fields) != sum(isinstance(a, F) for a in attrs):
+            diff.append(("attributes of the accepted model", [a.name for a in t.attributes], [f.name for f in t.fields]))
+    except pydsdl.InvalidDefinitionError as ex:
+        if good:
+            diff.append(("rejected", rule, form, str(ex)[:100]))
+    except Exception as ex:      # noqa
+        diff.append(("exception other than InvalidDefinitionError", type(ex).__name__, str(ex)[:100]))
+    r = {"nt": True, "key": "ctor-%s-%s" % (rule, form)}
+    if diff:
+        r["bad"] = {"kind": "ctor-rules", "case": {"rule": rule, "form": form}, "diff": diff}
+    return r
+
 def run(ctx):
     ctx.rule = ("TLC enumerates every definition obtained from the valid skeleton by <= 2 (quick) / 3 (thorough, sampled) "
                 "deviations over 11 dimensions: first field type (67: widths 1/2/64/65, cast modes, float sizes, void, utf8, "
@@ -184,6 +250,12 @@ def run(ctx):
                 mk=lambda blocks: [(b, ctx.seed, 1 if quick else 25) for b in blocks], shuffle=True)
     if not quick:
         ctx.exhaustive = False
+    deps = [(r_, h, p_, a) for r_ in ("A", "Z") for h in ("field", "array", "const", "none") for p_ in (100, 6143, 6144, 7167, 7168)
+            for a in ("namespace", "files")]
+    c02.consume(ctx, core.pmap(dep_port_worker, deps, chunksize=4), "dep-port")
+    ctors = [(r_, f) for r_ in ("ok-struct", "ok-union", "dup-field", "dup-field-const", "dup-union", "union-one-variant", "union-padding")
+             for f in ("list", "tuple", "generator", "iter", "map")]
+    c02.consume(ctx, core.pmap(ctor_rules_worker, ctors, chunksize=4), "ctor-rules")
     ctx.sample({"deviations": {"ft": "int1", "port": "vendor message 7168 not allowed"}, "expected": "rejected (width, port)"})
 
 def replay(ctx, rec):
